@@ -34,7 +34,7 @@ class KllC08(Part):
     # ------------------------------------------------------------------ generators
     def _flips_of(self, ops):
         """flips consumed by the implementation on `ops` with all-zero coins (shape only; used to fit the budget)"""
-        exe = os.path.join(core.BUILD, self.harness)
+        exe = core.harness_exe(self.harness)
         out, oc, err = core.run_impl(exe, ops, timeout=60) if os.path.exists(exe) else ([], "missing", "")
         if oc != "ok":
             out, oc, err = core.run_model(self.model_exe, self.family, ops, timeout=60)
